@@ -141,7 +141,14 @@ F2_QUICK = ["", "p", "q", "e", "s", "pq", "qp", "pr", "rp", "pe", "ep", "ps", "s
 
 
 def has_onmatch(c):
-    return any(isinstance(n, list) and n and n[0] == "=" and "onmatch" in n[2] for n in refinterp.walk(c))
+    """an .onmatch assignment, or an assignment from bare count() (docs/functions/count.md: it only counts matches, i.e. implies onmatch)."""
+    for n in refinterp.walk(c):
+        if isinstance(n, list) and n and n[0] == "=":
+            if "onmatch" in n[2]:
+                return True
+            if n[3][0] == "f" and n[3][1] == "count" and not n[3][3]:
+                return True
+    return False
 
 
 def cases(tier, seed):
